@@ -41,6 +41,18 @@ PARTIAL = {
  'C17': 'Theorems so far: the six index iterators generically (instantiated for BitVector, CompactVector, DacsByte, DacsOpt); the unary iterator (new at every start incl. len, next enumerates the set positions, skip1/skip0 from a skip-established cursor, exhaustion is permanent, the debug assertion cannot fire). The Elias-Fano iterator and the PSEF/WaveletMatrix instances are modelled and decided by the correspondence.',
  'C19': 'Theorems so far: BitVector size formula and bound; size of the Rank9 directory. The other bounds are evaluated on the real size_in_bytes() of worst-case families on every run.',
 }
+# properties whose statement is ALSO proved over the definitions generated from the Rust function bodies (tools/gen_fns.py):
+# lean/Sucds/Props/CxxGen.lean (Statement / Statement_partial), from the equivalence proofs lean/Sucds/Proofs/Gen*.lean
+GEN = {
+ 'C01': 'C01Gen.Statement (full): Rank9Sel::build_from_bits / from_bits + hint builders and access, rank1, rank0, select1, select0, num_* as generated from rank9sel.rs, rank9sel/inner.rs, for every bit list with length + 1534 < 2^64 and arguments < 2^64.',
+ 'C02': 'C02Gen.Statement (full): DArray::build_from_bits, select1/select0/rank1/rank0/access/num_* as generated from darray.rs, darray/inner.rs, for every bit list shorter than 2^63.',
+ 'C07': 'C07Gen.Statement (full): constructors, every mutation history (genRun), every read and scan of BitVector as generated from bit_vector.rs; bounds: final length + 1 < 2^64, reads len + 63 < 2^64.',
+ 'C09': 'C09Gen.Statement (full): CompactVector constructors (incl. from_slice), histories of push_int/set_int/extend, get_int/access/iter as generated from compact_vector.rs.',
+ 'C14': 'C14Gen.Statement (full): popcount, lsb, msb, select_in_word as generated from broadword.rs / intrinsics.rs, every word and k < 2^64, every configuration.',
+ 'C16': 'C16Gen.Statement_partial: EliasFanoBuilder::new/push/extend histories as generated from elias_fano.rs (verdicts, no-op rejections, accepted values held); the build() read-back clause awaits the Elias-Fano query equivalences.',
+ 'C17': 'C17Gen.Statement_partial: BitVector::iter, CompactVector::iter, unary_iter next/skip1/skip0 sequences as generated; the other containers\' iterators await their equivalences.',
+ 'C18': 'C18Gen.Statement (full, every L >= 1): compute_opt_widths as generated from dacs_opt.rs returns, with no assertion firing / overflow / out-of-bounds / non-termination, a cost-optimal valid split.',
+}
 for _k in list(PARTIAL):
     if _k in FULL: del PARTIAL[_k]
 levels = {}; checks = []
@@ -52,6 +64,8 @@ for p in props:
     levels[pid] = cat
     text = ('Machine-checked proof in Lean 4 of the full property statement over the model (lean/Sucds/Props/%s.lean: `Statement`, `holds`), re-checked by `lake build` on every run against constants regenerated from /repo, axioms audited; the hand-written model is tied to /repo on every run by a differential correspondence check (same generated scripts through the real code in 2-4 build configurations and through the compiled Lean model; implementation vs model, implementation vs executable specification, model vs specification). ' % pid + FULL[pid]) if full else \
            ('Lean 4 theorems cover part of the statement (named in lean/Sucds/Props/%s.lean and listed in the evidence); the rest of the statement is decided by the checked correspondence: the executable Lean model and the real code run on the same generated scripts and are compared with each other and with the executable specification (the oracle), so a violation comes with a concrete replay. ' % pid + PARTIAL[pid])
+    if pid in GEN:
+        text += ' ALSO over the code as translated: ' + GEN[pid] + ' The generated definitions (lean/Sucds/Gen/Fns.lean) are regenerated from /repo on every run by tools/gen_fns.py and proved equal to the model functions (lean/Sucds/Proofs/Gen*.lean), so for these functions the tie is the translator, not testing.'
     checks.append({
       'property_id': pid,
       'quick_cmd': 'python3 tools/check.py %s --tier quick' % pid,
@@ -61,7 +75,7 @@ for p in props:
       'engine': 'lean4-model+correspondence',
       'level_claimed': {'category': cat, 'text': text, 'design_ref': 'DESIGN.md §5 %s' % pid},
       'level_note': 'Trusted: Lean 4.33 kernel; axioms propext, Classical.choice, Quot.sound (+ bv_decide per-call axioms in word-level lemmas only); tools/gen_consts.py; the hand-written model is tied to /repo only by the correspondence run (differential testing, bounded by the generators: sizes up to 3*10^5 bits quick / 2*10^6 thorough); core intrinsics, std read_exact/write_all, Vec/Option semantics, overflow-check/debug-assert build semantics and rustc are modelled, not verified; builder arithmetic is in unbounded Nat (sizes < 2^57).',
-      'technique': 'Lean 4 proof over a hand-written executable model + checked model/implementation correspondence (differential, 2-4 build configurations)',
+      'technique': ('Lean 4 proof over definitions regenerated from the Rust function bodies on every run (translator tools/gen_fns.py) and proved equal to a hand-written executable model; + ' if pid in GEN else 'Lean 4 proof over a hand-written executable model; + ') + 'checked model/implementation correspondence (differential, 2-4 build configurations)',
     })
 m = {'version': 1,
  'setup_cmd': 'sh tools/setup.sh',
